@@ -2,9 +2,18 @@
     entry 1: case = [params; programs]  with
       params = [dsl; forbidden; request; max_depth; min_var; n_gram; const_types]
       dsl = list of [name; type], forbidden = list of [[name; index]; names]
-    answer = [membership bits; programs(); rule triples [type; depth; symbol]] *)
+    answer = [membership bits; programs(); rule triples [type; depth; symbol]; derivations]
+      derivations = per program: [] for a non-member, else
+        [derive_all positions ([type; depth], [] = end marker);
+         reduce_derivations with the collecting operator ([type; depth; symbol; number of arguments]);
+         number of pending arguments left]
+    entry 2: the same case shape (max_depth and min_var are ignored), grammar
+      compiled without depth bound (CFG.infinite + clean)
+    answer = [language empty?; membership bits; programs() ([] = infinite, [n], [-2] = finite but not computed);
+              rule triples; derivations; programs() as implemented today ([] = -1, [n])]
+      or [-3] when the cleaning ran out of fuel *)
 From Coq Require Import ZArith NArith List Bool.
-From PS Require Import Base.ListX Base.Sexp Base.Ty Base.Value Base.Prog Gram.Cfg.
+From PS Require Import Base.ListX Base.Sexp Base.Ty Base.Value Base.Prog Gram.Cfg Gram.CfgInf.
 Import ListNotations.
 Local Open Scope Z_scope.
 
@@ -25,6 +34,49 @@ Definition params_of_sexp (s : sexp) : option params :=
   | _ => None
   end.
 
+Definition enc_pos (d : dpos) : sexp :=
+  match d with DAt x => L [sexp_of_ty (nt_type x); ofNat (nt_depth x)] | DEnd => L [] end.
+
+Definition red_collect (acc : list sexp) (x : cnt) (s : sym) (nts : list cnt) : list sexp :=
+  acc ++ [L [sexp_of_ty (nt_type x); ofNat (nt_depth x); sexp_of_sym s; ofNat (length nts)]].
+
+Definition deriv_obs (R : cnt -> list rule) (s : cnt) (p : prog) : sexp :=
+  if contains_gen R s p then
+    match derive_all R p [] (DAt s) [], reduce_derivations red_collect R s [] p with
+    | Some (info, tr), Some l => L [L (map enc_pos tr); L l; ofNat (length info)]
+    | _, _ => L [A (-2)]          (* impossible for a member: C01_derive_all, C01_reduce_derivations *)
+    end
+  else L [].
+
+Definition enc_triples (l : list (ty * nat * sym)) : sexp :=
+  L (map (fun x => L [sexp_of_ty (fst (fst x)); ofNat (snd (fst x)); sexp_of_sym (snd x)]) l).
+
+Definition inf_fuel : nat := N.to_nat 2000.
+
+Definition run_inf (s : sexp) : sexp :=
+  match s with
+  | L [ps; progs] =>
+    match params_of_sexp ps, asListOf prog_of_sexp progs with
+    | Some P, Some l =>
+      match clean_inf P inf_fuel with
+      | None => L [A (-3)]
+      | Some c =>
+        let R := crules_inf P c in
+        L [ ofBool (match c_reach c with [] => true | _ => false end);
+            L (map (fun p => ofBool (contains_gen R (start P) p)) l);
+            match height_inf P c with
+            | None => L []
+            | Some h => if Nat.leb h 5 then L [ofN (programs (bounded P h))] else L [A (-2)]
+            end;
+            enc_triples (rule_triples_inf P c);
+            L (map (deriv_obs R (start P)) l);
+            match programs_inf_pinned P c with Some n => L [ofN n] | None => L [] end ]
+      end
+    | _, _ => bad_case
+    end
+  | _ => bad_case
+  end.
+
 Definition run_cfg (s : sexp) : sexp :=
   match s with
   | L [ps; progs] =>
@@ -32,7 +84,8 @@ Definition run_cfg (s : sexp) : sexp :=
     | Some P, Some l =>
       L [ L (map (fun p => ofBool (contains P p)) l);
           ofN (programs P);
-          L (map (fun x => L [sexp_of_ty (fst (fst x)); ofNat (snd (fst x)); sexp_of_sym (snd x)]) (rule_triples P)) ]
+          enc_triples (rule_triples P);
+          L (map (deriv_obs (crules P) (start P)) l) ]
     | _, _ => bad_case
     end
   | _ => bad_case
@@ -41,5 +94,6 @@ Definition run_cfg (s : sexp) : sexp :=
 Definition run_case (entry : Z) (s : sexp) : sexp :=
   match entry with
   | 1 => run_cfg s
+  | 2 => run_inf s
   | _ => bad_case
   end.
